@@ -601,6 +601,7 @@ def parse_ctx(scratch):
         ctx = new_ctx(scratch)
         ctx.add_page("Template:a", 10, "A[{{{1|}}}]")
         ctx.add_page("Template:hd", 10, "== Generated ==")
+        ctx.add_page("Module:ustring:ustring", 828, USTRING_STUB, model="Scribunto")   # the Scribunto submodule is absent offline
         ctx.db_conn.commit()
         _parse_ctx = ctx
     return _parse_ctx
